@@ -528,7 +528,11 @@ def install_tracer(sink):
             sink.append({"op": "leaf", "kind": j["kind"], "key": int(token.value), "res": j})
             return r
 
-        def _bin(self, op, fn, left, right):
+        def _bin(self, op, fn, *args):
+            if len(args) != 2:          # a refactored transformer with n-ary callbacks: not comparable step by step, the run is skipped
+                sink.append({"op": "skip"})
+                return fn(*args)
+            left, right = args
             ev = {"op": op, "l": node_json(left), "r": node_json(right)}
             try:
                 r = fn(left, right)
@@ -544,17 +548,17 @@ def install_tracer(sink):
             sink.append(ev)
             return r
 
-        def and_composition(self, left, right):
-            return self._bin("and", super().and_composition, left, right)
+        def and_composition(self, *args):
+            return self._bin("and", super().and_composition, *args)
 
-        def or_composition(self, left, right):
-            return self._bin("or", super().or_composition, left, right)
+        def or_composition(self, *args):
+            return self._bin("or", super().or_composition, *args)
 
-        def xor_composition(self, left, right):
-            return self._bin("xor", super().xor_composition, left, right)
+        def xor_composition(self, *args):
+            return self._bin("xor", super().xor_composition, *args)
 
-        def then_also_composition(self, left, right):
-            return self._bin("then", super().then_also_composition, left, right)
+        def then_also_composition(self, *args):
+            return self._bin("then", super().then_also_composition, *args)
 
     mod.RequirementConstraintTransformer = Tracing
     return mod
@@ -602,6 +606,8 @@ def random_tree(rng, leaves, rc_keys, hint_keys, fc_keys):
 
 def in_generator_domain(events):
     """Eval.tla only builds juxtapositions with at least one single-FC side"""
+    if any(e["op"] == "skip" for e in events):
+        return False
     return all(e["op"] != "then" or e["l"]["kind"] == "fc" or e["r"]["kind"] == "fc" for e in events)
 
 
@@ -710,7 +716,7 @@ def unit_test_suite_traces(res: Result, work: Work, which="rc"):
             else:
                 skipped += 1
         else:
-            if all(e["op"] != "leaf" or e["res"]["has_msg"] == (not e["res"]["ok"]) for e in t["events"]):
+            if all(e["op"] != "skip" and (e["op"] != "leaf" or e["res"]["has_msg"] == (not e["res"]["ok"])) for e in t["events"]):
                 fc_traces.append({"id": t["id"], "events": t["events"]})
             else:
                 skipped += 1
